@@ -134,3 +134,41 @@ Proof.
   intros Hspec Hv ND Ha Hb. unfold get_item_with, set_item_with. rewrite Hv.
   rewrite (resolve_slice_ok lc st Hspec a b (Some 0) pa pb ND Ha Hb). split; reflexivity.
 Qed.
+
+(* ================= a label-slice write, then reads by label: exactly the addressed periods changed =================
+   obj[name, a:b:s] = v (s > 0) succeeds, and afterwards obj[name, x] is v for every period x whose position is
+   pos a + i*s <= pos b, and its OLD value for every other period of the span. *)
+Theorem slice_write_then_label_reads {V} (lc : label -> outcome loc) (st : cstate V) (name : string) (sr : series V)
+        (a b : option label) (s : option Z) (pa pb : nat) (v : V) :
+  locate_spec (span_labels (c_span st)) lc ->
+  lookup name (c_vars st) = Some sr ->
+  length (s_data sr) = length (span_labels (c_span st)) ->
+  NoDup (span_labels (c_span st)) ->
+  start_pos (span_labels (c_span st)) a = Some pa -> stop_pos (span_labels (c_span st)) b = Some pb -> 0 < step_of s ->
+  exists st', set_item_with lc st name (KSlice a b s) (OScalar v) = (st', Ret tt)
+    /\ c_span st' = c_span st
+    /\ forall x p, pos x (span_labels (c_span st)) = Some p ->
+         ((exists i : nat, Z.of_nat p = Z.of_nat pa + Z.of_nat i * step_of s /\ (p <= pb)%nat) ->
+            get_item_with lc st' name (KLabel x) = Ret (RScalar v))
+         /\ (~ (exists i : nat, Z.of_nat p = Z.of_nat pa + Z.of_nat i * step_of s /\ (p <= pb)%nat) ->
+               forall old, nth_error (s_data sr) p = Some old -> get_item_with lc st' name (KLabel x) = Ret (RScalar old)).
+Proof.
+  intros Hspec Hv Hlen ND Ha Hb Hs.
+  pose proof (start_pos_lt _ _ _ Ha) as La. pose proof (stop_pos_lt _ _ _ Hb) as Lb. rewrite <- Hlen in La, Lb.
+  destruct (inclusive_slice_positions (length (s_data sr)) pa pb (step_of s) La Lb Hs) as [HI _].
+  set (L := py_slice_positions (length (s_data sr)) (Some (Z.of_nat pa)) (Some (Z.of_nat pb + 1)) (step_of s)) in *.
+  assert (HLlt : forall p, In p L -> (p < length (s_data sr))%nat).
+  { intros p Hp. apply HI in Hp as [i [_ Hp]]. lia. }
+  destruct (assign_scalar_effect sr L v HLlt) as [d' [Hass [Hd'len [Hin Hout]]]].
+  exists (set_data st name sr d'). split.
+  - exact (slice_set_exact lc st name sr Hspec Hv Hlen a b s pa pb (OScalar v) d' ND Ha Hb Hs Hass).
+  - split; [reflexivity|]. intros x p Hp.
+    assert (Hv' : lookup name (c_vars (set_data st name sr d')) = Some (mkSeries (s_dtype sr) (s_id sr) d')) by (apply set_data_lookup; exact Hv).
+    assert (Hlen' : length (s_data (mkSeries (s_dtype sr) (s_id sr) d')) = length (span_labels (c_span (set_data st name sr d')))).
+    { simpl. rewrite Hd'len. exact Hlen. }
+    destruct (label_get_exact lc (set_data st name sr d') name (mkSeries (s_dtype sr) (s_id sr) d') Hspec Hv' Hlen' x p Hp) as [w [Hw Hg]].
+    simpl in Hw. split.
+    + intros Hex. apply HI in Hex. rewrite (Hin p Hex) in Hw. inversion Hw; subst. exact Hg.
+    + intros Hnex old Hold. assert (Hn : ~ In p L) by (intros Hc; apply Hnex; apply HI; exact Hc).
+      rewrite (Hout p Hn), Hold in Hw. inversion Hw; subst. exact Hg.
+Qed.
